@@ -88,8 +88,13 @@ def build(case):
     split = case.get("split", "one")
     kms = {"km1": {}, "km2": {}}
     for idx, (to, fr) in enumerate(struct):
-        target = "km1" if split == "one" or (split == "alternate" and idx % 2 == 0) or (split == "halves" and idx < (len(struct) + 1) // 2) else "km2"
+        target = "km1" if split in ("one", "override") or (split == "alternate" and idx % 2 == 0) or (split == "halves" and idx < (len(struct) + 1) // 2) else "km2"
         kms[target][f"{names[to]}<-{names[fr]}"] = f"k.{idx+1}"
+    if split == "override":
+        # the first K-matrix carries a decoy value for the first entry; the later one overrides it (documented in combine)
+        to, fr = struct[0]
+        kms = {"km0": {f"{names[to]}<-{names[fr]}": "k.decoy"}, "km1": kms["km1"]}
+        params["k.decoy"] = 7.7
     kms = {k: {"matrix": v} for k, v in kms.items() if v}
     order = case.get("order", list(range(n)))
     weights = case["weights"]
@@ -288,7 +293,7 @@ def run(run: core.Run):
         for st in structures(n):
             for pattern in ("interleaved",) if quick else ("interleaved", "ascending", "descending"):
                 for exc, w in excitations(n, unequal=True):
-                    for split in ("one", "alternate") if len(st) > 1 else ("one",):
+                    for split in ("one", "alternate", "override") if len(st) > 1 else ("one", "override"):
                         if quick and split == "alternate" and len(st) > 4:
                             continue
                         base = {"n": n, "struct": st, "pattern": pattern, "excited": exc, "weights": w, "split": split,
